@@ -8,6 +8,7 @@ import Driver.WsaD
 import Driver.WsseD
 import Driver.LexD
 import Driver.UnwrapD
+import Driver.FrameD
 /-! Line-protocol driver: one JSON object per stdin line, one per stdout line. -/
 open Lean Driver
 
@@ -29,6 +30,7 @@ def dispatch (j : Json) : R Json := do
   | "lex.enc" => lexEnc j
   | "lex.dec" => lexDec j
   | "soap.unwrap" => soapUnwrap j
+  | "soap.frame" => soapFrame j
   | _ => throw s!"unknown op {op}"
 
 def handleLine (line : String) : String :=
